@@ -74,7 +74,7 @@ def run_p1(files, lang, tag, root_name="proj"):
 # =====================================================================================================================
 # rename-pair comparison (second clause)
 # =====================================================================================================================
-def compare_twins(lang, vA, rowsA, vB, rowsB, renamed_lines, old, new, renamed_fields=(), skip_stmts=()):
+def compare_twins(lang, vA, rowsA, vB, rowsB, renamed_lines, old, new, renamed_fields=(), skip_stmts=(), cross=None):
     """Position-wise comparison of the P1 symbol tables of a program and its alpha-renamed twin.
     renamed_lines: {0-based line} of the renamed occurrences (one occurrence of a name per line); renamed_fields: field names of
     class-body reads `uN = name` (their GIR rows carry the class statement's line); skip_stmts: statements of occurrences that
@@ -101,7 +101,22 @@ def compare_twins(lang, vA, rowsA, vB, rowsB, renamed_lines, old, new, renamed_f
                 continue
             sid = B._int(r.get("stmt_id"))
             sym = B._int(r.get("symbol_id"))
-            tgt = ("row", pos[sym]) if sym in pos else (("unresolved",) if sym is None or sym < 0 else ("other", 0))
+            if sym in pos and sym in view.by_id:
+                # a declaration is identified by where it lives (position of its enclosing block), what it is and the declared name:
+                # robust against a different order of hoisted rows, and two rows declaring one name in one block are one declaration
+                dr = view.by_id[sym]
+                blk = view.norm_block(sym)
+                dn = B.UnitView.decl_name(dr)
+                tgt = ("decl", pos.get(blk, 0) if blk else 0, dr.get("operation"), old if dn == new else dn)
+            elif sym is None or sym < 0:
+                tgt = ("unresolved",)
+            else:
+                tgt = ("other", 0)
+                allv = cross[0 if view is vA else 1] if cross else {}
+                for rel, v2 in allv.items():
+                    if sym in v2.by_id:      # a declaration in another file of the project: file, operation, declared name
+                        dn = B.UnitView.decl_name(v2.by_id[sym])
+                        tgt = ("decl-in", rel, v2.by_id[sym].get("operation"), old if dn == new else dn)
             row = view.by_id.get(sid, {})
             line = row.get("start_row")
             ren = (line is not None and int(line) in renamed_lines and row.get("operation") != "field_write") or \
@@ -624,10 +639,12 @@ def js_expected_ids(view, meta, var):
         if d["kind"] == "var":
             own = view.owner_scope(isid)
             return sorted(int(r["stmt_id"]) for r in view.decl_rows(d["name"])
-                          if r.get("operation") == "variable_decl" and view.owner_scope(int(r["stmt_id"])) == own), own
+                          if r.get("operation") == "variable_decl" and "var" in str(r.get("attrs"))
+                          and view.owner_scope(int(r["stmt_id"])) == own), own
         blk = view.norm_block(isid)
         return sorted(int(r["stmt_id"]) for r in view.decl_rows(d["name"])
-                      if r.get("operation") == "variable_decl" and view.norm_block(int(r["stmt_id"])) == blk), view.parent_stmt(isid)
+                      if r.get("operation") == "variable_decl" and ("let" in str(r.get("attrs")) or "const" in str(r.get("attrs")))
+                      and view.norm_block(int(r["stmt_id"])) == blk), view.parent_stmt(isid)
     if kind == "param":
         p = meta["params"][str(ref)]
         line = meta["scopes"][str(p["scope"])]["line"]
@@ -821,6 +838,380 @@ def batch_js_single(job):
     return res
 
 
+# =====================================================================================================================
+# Python, multi-file projects
+# =====================================================================================================================
+def proj_resolve(meta, path, name, depth=0):
+    """Which library declaration does `name` mean at module level of file `path` (following non-oracle generator knowledge of
+    the import statements)? Used only to build the renamed twin, never to judge. -> const key or None"""
+    if depth > 6:
+        return None
+    for c, d in meta["consts"].items():
+        if d["file"] == path and d["name"] == name and d["scope"] == meta["files"][path]["scope"]:
+            return c
+    for k, imp in meta["imports"].items():
+        if imp["file"] == path and imp["scope"] == meta["files"][path]["scope"] and name in imp["binds"]:
+            t = (imp.get("target") or {}).get(name)
+            if t and t[1] is not None:
+                return proj_resolve(meta, t[0], t[1], depth + 1)
+    return None
+
+
+def proj_prepare(files, meta, run):
+    from lib.monitors import binding as B
+    prog = {"files": files, "meta": meta, "faults": [], "occ": {}, "obs_norm": None}
+    obs = {}
+    for tag, kind, payload in run["outputs"]:
+        obs.setdefault(tag, []).append([kind, payload])
+    prog["obs_norm"] = obs
+    syms = {}
+    for path, text in files.items():
+        scopes = {sid: sc for sid, sc in meta["scopes"].items() if sc["file"] == path}
+        try:
+            syms[path] = B.PySym(text, {"scopes": scopes})
+        except SyntaxError:
+            prog["faults"].append(f"{path} does not parse")
+            return prog
+        if not syms[path].complete:
+            prog["faults"].append(f"symtable tables of {path} could not be aligned with the generated scopes")
+            return prog
+    mod_file = {f["module"]: p for p, f in meta["files"].items()}
+
+    def target_of(val):
+        kind, payload = val
+        if kind == "str" and payload == "!NE":
+            return None
+        if kind == "const":
+            d = meta["consts"].get(str(payload))
+            return ("decl", str(payload)) if d and d["kind"] != "method" else "?"
+        if kind == "func":
+            c = meta["funcs"].get(payload)
+            if c is None:
+                modn, qual = payload.split(":", 1)
+                cs = [c2 for c2, d in meta["consts"].items() if d["kind"] == "function" and d["file"] == mod_file.get(modn)
+                      and qual.split(".")[-1] == d["name"]]
+                c = cs[0] if len(cs) == 1 else None
+            return ("decl", c) if c else "?"
+        if kind == "module":
+            return ("module", payload) if payload in files else "?"
+        return "?"
+
+    def wildcard_bound(path, scope, name):
+        return any(i["file"] == path and i["form"] == "wildcard" and name in i["binds"] for i in meta["imports"].values())
+
+    causes = {}
+
+    def import_kind(path, owner, name, tgt):
+        """The import statement that binds `name` in scope `owner` of file `path`, and which of the five import mechanisms that
+        fail on the pinned tree it involves (recomputed from the case: the import table of the generated project)."""
+        for i in meta["imports"].values():
+            if i["file"] == path and i["scope"] == owner and name in i["binds"]:
+                t = (i.get("target") or {}).get(name)
+                re = ""
+                cause = None
+                if meta["scopes"][str(owner)]["kind"] != "module":
+                    cause = "function-local-import"
+                elif i["form"] == "wildcard":
+                    cause = "from-import-wildcard"
+                elif tgt[0] == "decl" and t and meta["consts"][tgt[1]]["file"] != t[0]:
+                    re = "(re-exported-by-" + ("package-init" if t[0].endswith("__init__.py") else "module") + ")"
+                    cause = "re-exported-name"
+                elif tgt[0] == "decl" and meta["consts"][tgt[1]]["file"].endswith("__init__.py"):
+                    cause = "declared-in-package-__init__"
+                elif any(j is not i and j["file"] == path and j["scope"] == owner and j["form"] != "wildcard"
+                         and any((j.get("target") or {}).get(b) == t for b in j["binds"]) for j in meta["imports"].values()):
+                    cause = "target-also-imported-under-another-name"
+                causes[(path, owner, name)] = cause
+                return i["kind"] + re
+        return None
+
+    def site_of(path, sid):
+        sc = meta["scopes"][str(sid)]
+        if sc["kind"] == "module":
+            return "module-body"
+        if sc.get("method"):
+            return "method-body"
+        return "nested-function-body" if meta["scopes"][str(sc["parent"])]["kind"] == "function" else "function-body"
+
+    def describe(path, use_scope, name, tgt, sym):
+        """-> (fine decl kind, owner scope per symtable or '?')"""
+        st = sym.owner(use_scope, name)
+        if tgt is None:
+            return "none", st
+        if tgt[0] == "module":
+            ik = import_kind(path, st, name, tgt) if st not in ("?", None) else None
+            return (f"imported-module({ik})" if ik else "?"), st
+        d = meta["consts"][tgt[1]]
+        if d["file"] == path:
+            if d["kind"] == "parameter":
+                return ("own-parameter" if d["scope"] == use_scope else "enclosing-function-parameter"), st
+            osc = meta["scopes"][str(d["scope"])]
+            base = "module-" if osc["kind"] == "module" else ("own-" if d["scope"] == use_scope else "enclosing-function-")
+            # the same name may reach this file's scope through an import of a declaration of this very file? (not generated)
+            return base + d["kind"], st
+        ik = import_kind(path, st, name, tgt) if st not in ("?", None) else None
+        return (f"imported-{d['kind']}({ik})" if ik else "?"), st
+
+    occ = {}
+    for tag, u in list(meta["uses"].items()) + [(t, dict(c, call=True)) for t, c in meta["calls"].items()]:
+        vals = obs.get(tag)
+        if not vals:
+            continue
+        path = u["file"]
+        sym = syms[path]
+        if u.get("call"):
+            ts = {json.dumps(("decl", str(v[1])) if v[0] == "const" and str(v[1]) in meta["consts"] else "?") for v in vals}
+        else:
+            ts = {json.dumps(target_of(v)) for v in vals}
+        if len(ts) != 1 or json.loads(next(iter(ts))) == "?":
+            prog["faults"].append(f"{path}: occurrence {tag} of {u['name']}: the runtime value identifies no single declaration ({sorted(ts)})")
+            continue
+        tgt = json.loads(next(iter(ts)))
+        tgt = tuple(tgt) if tgt is not None else None
+        decl, st = describe(path, u["scope"], u["name"], tgt, sym)
+        wc = wildcard_bound(path, u["scope"], u["name"])
+        # symtable cross-check
+        ok = True
+        if st == "?" or decl == "?":
+            ok = wc and tgt is not None and tgt[0] == "decl"          # symtable cannot see what `import *` binds
+            if ok:
+                st = meta["files"][path]["scope"]
+                decl = f"imported-{meta['consts'][tgt[1]]['kind']}(from-import-wildcard)"
+        elif tgt is None:
+            ok = st is None
+        elif st is None:
+            ok = wc
+            if ok:
+                st = meta["files"][path]["scope"]
+                d = meta["consts"][tgt[1]] if tgt[0] == "decl" else None
+                decl = f"imported-{d['kind']}(from-import-wildcard)" if d else decl
+        elif tgt[0] == "decl" and meta["consts"][tgt[1]]["file"] == path:
+            d = meta["consts"][tgt[1]]
+            ok = st == d["scope"]
+        else:
+            s_ = sym.sym(st, u["name"])
+            ok = s_ is not None and s_.is_imported()
+        if not ok:
+            prog["faults"].append(f"{path}: occurrence {tag} of {u['name']}: runtime says {tgt}, symtable says scope {st}")
+            continue
+        cause = causes.get((path, st, u["name"]))
+        if decl.endswith("(from-import-wildcard)"):
+            cause = "from-import-wildcard"
+        occ[tag] = {"kind": "call" if u.get("call") else "use", "file": path, "name": u["name"], "line": u["line"], "scope": u["scope"],
+                    "target": tgt, "owner": st, "site": site_of(path, u["scope"]) + ("(call)" if u.get("call") else ""), "decl": decl,
+                    "cause": cause}
+    prog["occ"] = occ
+    return prog
+
+
+def proj_pick_rename(prog, rng):
+    """A library declaration + exactly the occurrences that mean it (per the runtime), to be renamed consistently."""
+    meta = prog["meta"]
+    cands = []
+    for c, d in meta["consts"].items():
+        if d["file"] == "main.py" or d["kind"] not in ("variable", "function"):
+            continue
+        uses = [t for t, o in prog["occ"].items() if o["target"] == ("decl", c)]
+        if not uses or not any(prog["occ"][t]["file"] != d["file"] for t in uses):
+            continue
+        # every occurrence spelled like the declaration must have been classified
+        spelled = [t for t, u in list(meta["uses"].items()) + list(meta["calls"].items()) if u["name"] == d["name"]]
+        if any(t not in prog["occ"] for t in spelled):
+            continue
+        keys = [("a" if d["kind"] == "variable" else "d") + c]
+        keys += [t for t in spelled if prog["occ"][t]["target"] == ("decl", c)]
+        for k, imp in meta["imports"].items():
+            for j, (n, a) in enumerate(imp.get("names") or []):
+                t = (imp.get("target") or {}).get(a or n)
+                if n == d["name"] and t and t[1] is not None and proj_resolve(meta, t[0], t[1]) == c:
+                    keys.append(f"{k}s{j}")
+        cands.append({"const": c, "keys": sorted(set(keys)), "old": d["name"], "new": d["name"] + "_r"})
+    if not cands:
+        return None
+    return rng.choice(cands)
+
+
+def proj_expected_ids(views, unit_of, module_of, meta, o):
+    tgt = o["target"]
+    if tgt[0] == "module":
+        path = tgt[1]
+        ids = set()
+        if path in unit_of:
+            ids.add(unit_of[path])
+        if path.endswith("__init__.py"):
+            d = os.path.dirname(path)
+            if d in module_of:
+                ids.add(module_of[d])
+        return sorted(ids)
+    d = meta["consts"][tgt[1]]
+    view = views.get(d["file"])
+    if view is None:
+        return None
+    osc = meta["scopes"][str(d["scope"])]
+    if osc["kind"] == "module":
+        og = 0
+    else:
+        og = None
+        for sid in view.anchors().get(osc["line"], []):
+            if view.by_id[sid].get("name") == osc["name"]:
+                og = sid
+        if og is None:
+            return None
+    return sorted(int(r["stmt_id"]) for r in view.decl_rows(d["name"]) if view.owner_scope(int(r["stmt_id"])) == og)
+
+
+def proj_signature(o, what):
+    if o["decl"] == "none":
+        return f"python:{o['site'].replace('(call)', '')}->none:bound-to-{what}"
+    if o["decl"].startswith("imported-"):
+        # the import form is what matters for imported symbols, not where in the importing file the name is read
+        if o.get("cause"):
+            return f"python:*->imported-symbol({o['cause']}):not-bound-to-it"
+        return f"python:*->{o['decl']}:bound-to-{what}"
+    return f"python:{o['site'].replace('(call)', '')}->{o['decl']}(multi-file):bound-to-{what}"
+
+
+def judge_project(prog, views, s2v, unit_of, module_of):
+    from lib.monitors import binding as B
+    meta = prog["meta"]
+    res = {"judged": 0, "unresolved": 0, "pairs": set(), "fails": [], "faults": [], "join_ok": 0, "failed_stmts": {}, "imported": 0}
+    tagged = {p: B.tagged_rows(v) for p, v in views.items()}
+    for tag, o in prog["occ"].items():
+        view = views.get(o["file"])
+        if view is None:
+            res["faults"].append(f"no GIR for {o['file']}")
+            continue
+        hits = [(r, a) for r, a in tagged[o["file"]].get(tag, []) if r.get("operation") == "call_stmt"]
+        if o["kind"] == "use":
+            hits = [(r, a) for r, a in hits if r.get("name") == "out" and len(a) == 2 and a[1] == o["name"]]
+        else:
+            hits = [(r, a) for r, a in hits if r.get("name") == o["name"]]
+        hits = [r for r, a in hits if r.get("start_row") is not None and int(r["start_row"]) == o["line"]]
+        if len(hits) != 1:
+            res["faults"].append(f"{o['file']}: occurrence {tag} ({o['name']} at line {o['line'] + 1}) could not be joined to exactly one GIR row ({len(hits)})")
+            continue
+        res["join_ok"] += 1
+        sid = int(hits[0]["stmt_id"])
+        got = s2v[o["file"]].ids(sid, o["name"])
+        res["judged"] += 1
+        res["pairs"].add((o["site"], o["decl"]))
+        where = f"{o['file']}: {o['name']} at line {o['line'] + 1}"
+        if o["target"] is None:
+            res["unresolved"] += 1
+            bad = [g for g in got if g[0] is not None and g[0] >= 0]
+            if not got or bad:
+                res["failed_stmts"].setdefault(o["file"], set()).add(sid)
+            if not got:
+                res["fails"].append((f"python:{o['site']}->none:no-symbol-row", f"no s2space row for {where}", tag))
+            elif bad:
+                what = B.describe_choice(view, sid, bad, all_views=views)
+                res["fails"].append((proj_signature(o, what), f"{where} has no visible declaration (NameError at run time) but lian binds it to "
+                                     f"statement {bad[0][0]} ({what})", tag))
+            continue
+        if o["decl"].startswith("imported-"):
+            res["imported"] += 1
+        exp = proj_expected_ids(views, unit_of, module_of, meta, o)
+        if exp is None:
+            res["faults"].append(f"the declaration of {where} could not be located in the GIR")
+            continue
+        wrong = [g for g in got if g[0] not in exp]
+        if not got or wrong:
+            res["failed_stmts"].setdefault(o["file"], set()).add(sid)
+        if not got:
+            res["fails"].append((proj_signature(o, "no-symbol-row"), f"no s2space row for {where}", tag))
+        elif wrong:
+            what = B.describe_choice(view, sid, wrong, all_views=views)
+            tdesc = meta["consts"][o["target"][1]] if o["target"][0] == "decl" else {"file": o["target"][1], "name": "(module)", "line": -1}
+            res["fails"].append((proj_signature(o, what),
+                                 f"{where} is bound by the language to {o['decl']}: {tdesc['name']} declared in {tdesc['file']} line "
+                                 f"{tdesc['line'] + 1} (declaration ids {exp}); lian recorded symbol_id {wrong[0][0]} in unit {wrong[0][1]} ({what})", tag))
+    return res
+
+
+def batch_py_project(job):
+    from lib import gen_bind
+    tag, seeds, replay = job["tag"], job.get("seeds", []), job.get("replay")
+    rng = random.Random(job.get("rseed", 0))
+    res = new_result("python-project")
+    res["imported"] = 0
+    sc = common.scratch()
+    items = []
+    if replay:
+        items.append((None, replay["files"], replay["meta"], replay.get("twin")))
+    for seed in seeds:
+        files, meta = gen_bind.gen_py_project(seed)
+        items.append((seed, files, meta, None))
+    for n, (seed, files, meta, twin) in enumerate(items):
+        wd = os.path.join(sc, f"c05proj_{tag}_{n}")
+        os.makedirs(wd, exist_ok=True)
+        run = gen_bind.run_py_project(files, wd)
+        if run["status"] != "ok":
+            res["discarded"] += 1
+            continue
+        p = proj_prepare(files, meta, run)
+        p["seed"] = seed
+        p["twin"] = twin
+        if seed is not None and not p["faults"]:
+            rn = proj_pick_rename(p, rng)
+            if rn:
+                tfiles, tmeta = gen_bind.gen_py_project(seed, {k: rn["new"] for k in rn["keys"]})
+                wd2 = os.path.join(sc, f"c05proj_{tag}_{n}_r")
+                os.makedirs(wd2, exist_ok=True)
+                trun = gen_bind.run_py_project(tfiles, wd2)
+                tobs = {}
+                for t_, k_, v_ in trun.get("outputs", []):
+                    tobs.setdefault(t_, []).append([k_, v_])
+                norm = lambda ob: {t_: [[k_, (v_.replace(rn["new"], rn["old"]) if isinstance(v_, str) else v_)] for k_, v_ in vs] for t_, vs in ob.items()}
+                if trun["status"] == "ok" and norm(tobs) == norm(p["obs_norm"]):
+                    rn["files"] = tfiles
+                    rn["lines"] = {}
+                    for k in rn["keys"]:
+                        oc = meta["occ"][k]
+                        rn["lines"].setdefault(oc["file"], []).append(oc["line"])
+                    p["twin"] = rn
+                else:
+                    res["twin_rejected"] += 1
+        views, s2v, s2rows, unit_of, module_of = run_p1(files, "python", f"{tag}_{n}")
+        case = {"kind": "pyproj", "files": files, "meta": meta, "seed": seed, "twin": p["twin"]}
+        if not views:
+            res["fails"].append(("python:no-gir-for-unit", "the lang phase emitted no GIR for a generated project", case))
+            continue
+        res["programs"] += 1
+        res["s2rows"] += sum(s.n for s in s2v.values())
+        for f in p["faults"]:
+            res["faults"].append(f)
+        r = judge_project(p, views, s2v, unit_of, module_of)
+        res["judged"] += r["judged"]
+        res["unresolved"] += r["unresolved"]
+        res["join_ok"] += r["join_ok"]
+        res["imported"] += r["imported"]
+        res["faults"] += r["faults"]
+        res["pairs"] = sorted(set(map(tuple, res["pairs"])) | r["pairs"])
+        seen = set()
+        for sig, text, t_ in r["fails"]:
+            if sig in seen:
+                continue
+            seen.add(sig)
+            res["fails"].append((sig, text, dict(case, occurrence=t_)))
+        if not res["samples"]:
+            res["samples"].append({"lang": "python-project", "files": files, "occurrences_judged": r["judged"]})
+        if p["twin"]:
+            tw = p["twin"]
+            tviews, ts2v, ts2rows, tunit_of, _ = run_p1(tw["files"], "python", f"{tag}_{n}_r")
+            res["rename_pairs"] += 1
+            for path in files:
+                if path not in views or path not in tviews:
+                    continue
+                sig, text, nrows = compare_twins("python-project", views[path], s2rows.get(path, []), tviews[path], ts2rows.get(path, []),
+                                                 set(tw["lines"].get(path, [])), tw["old"], tw["new"],
+                                                 skip_stmts=r["failed_stmts"].get(path, ()), cross=(views, tviews))
+                res["rename_rows"] += nrows
+                if sig:
+                    res["fails"].append((sig, f"{path}: {text}", case))
+                    break
+    return res
+
+
 def meta_line(meta, key):
     return meta["occ"][key]["line"]
 
@@ -859,7 +1250,7 @@ def finish_program(res, lang, p, view, s2, case, judge):
                                "occurrences_judged": r["judged"]})
 
 
-JOBS = {"py1": batch_py_single, "js1": batch_js_single}
+JOBS = {"py1": batch_py_single, "js1": batch_js_single, "pyproj": batch_py_project}
 
 
 def run_job(job):
@@ -888,6 +1279,9 @@ def main():
         for k in range(0, npy, PY_BATCH):
             jobs.append({"kind": "py1", "tag": f"py{k // PY_BATCH}", "seeds": [base + i for i in range(k, min(npy, k + PY_BATCH))],
                          "rseed": base + k})
+        nproj = 50 if not thorough else 800
+        for k in range(0, nproj, 4):
+            jobs.append({"kind": "pyproj", "tag": f"pp{k // 4}", "seeds": [base + 104729 + i for i in range(k, min(nproj, k + 4))], "rseed": base + k})
         njs = 50 if not thorough else 1400
         for k in range(0, njs, JS_BATCH):
             jobs.append({"kind": "js1", "tag": f"js{k // JS_BATCH}", "seeds": [base + 7919 + i for i in range(k, min(njs, k + JS_BATCH))],
@@ -913,6 +1307,8 @@ def main():
         chk.count(f"{lang}: rename pairs compared", v["rename_pairs"])
         chk.count(f"{lang}: s2space symbol rows compared across rename pairs", v["rename_rows"])
         chk.count(f"{lang}: s2space symbol rows read", v["s2rows"])
+        if "imported" in v:
+            chk.count(f"{lang}: occurrences bound to a declaration in another file (imported symbols and modules)", v["imported"])
         chk.count("generated programs discarded (not total under the runtime)", v["discarded"])
         chk.count("rename twins rejected by the runtime self-check", v["twin_rejected"])
         chk.count("oracle disagreements / join failures (harness faults)", len(v["faults"]))
